@@ -366,6 +366,14 @@ func c04Run(r *core.Run) {
 		// ("public-client": a certificate with the client-authentication usage that
 		// chains to a root of the operating system's trust store, which no
 		// configuration here mentions)
+		// while two requests are meant to overlap the token takes its time
+		slowToken := false
+		w.TokenPlan = func(tok *world.SimToken, op, key string, n int) world.TokOutcome {
+			if slowToken && op == "getkey" {
+				return world.TokOutcome{Delay: 30 * time.Millisecond}
+			}
+			return world.TokOutcome{}
+		}
 		var signed []map[string]string // expectations for audit records
 		conns := map[string]*tls.ConnectionState{}
 		var lastTLS, lastPeer string
@@ -549,7 +557,49 @@ func c04Run(r *core.Run) {
 			}
 			before := len(c04KeyOps(w))
 			panicsBefore := len(w.PanicsLogged())
+			// now and then somebody else looks the same key up while this request
+			// is being served: each of the two is judged on its own merits
+			var sdone chan *respRec
+			var sident string
+			if !policyMode && (q.Endpoint == "getkey" || q.Endpoint == "sign") && t.Chance(1, 4, "concurrent-lookup") {
+				sident = core.Pick(t, "concurrent-ident", "client-fp-1", "client-fp-2", "ca-1-client-a", "ca-2-client-a")
+				delay := time.Duration(t.Choose(4, "concurrent-delay")) * 10 * time.Millisecond
+				srs := reqSpec{Method: "GET", Path: "/keys/" + q.Key, Peer: "192.0.2.50:6000", TLS: pki[sident], Header: http.Header{}, Timeout: 30 * time.Second}
+				sdone = make(chan *respRec, 1)
+				slowToken = true
+				w.Sched.Go(fmt.Sprintf("shadow%d", i), func() {
+					if delay > 0 {
+						w.Sleep(delay)
+					}
+					sdone <- serve(h, srs)
+				})
+			}
 			resp := serve(h, rs)
+			if sdone != nil {
+				sresp := <-sdone
+				w.Yield("wake")
+				slowToken = false
+				sc := recognise(sident)
+				starget, smalformed, sundefined := c04Resolve(cfg, q.Key)
+				if sc.Known && starget != nil && !smalformed && !sundefined {
+					sdesc := fmt.Sprintf("req#%d(concurrent look-up) getkey key=%s tls=%s roles=%v key roles %v -> %d, while %s key=%s tls=%s -> %d was served", i, q.Key, sident, sc.Roles, starget.Roles, sresp.Code, q.Endpoint, q.Key, q.TLS, resp.Code)
+					r.Evals++
+					if intersects(starget.Roles, sc.Roles) {
+						if sresp.Code < 200 || sresp.Code > 299 {
+							r.Failf("C04.entitled-caller-refused", "concurrent-getkey", "%s", sdesc)
+						}
+						r.Probe("concurrent-lookup-entitled")
+					} else {
+						if sresp.Code != 401 && sresp.Code != 403 {
+							r.Failf("C04.unentitled-caller-served", "concurrent-getkey", "%s", sdesc)
+						}
+						if bytes.Contains(sresp.Body, []byte("BEGIN CERTIFICATE")) {
+							r.Failf("C04.unentitled-caller-served", "concurrent-cert-disclosed", "refusal body discloses a certificate: %s", sdesc)
+						}
+						r.Probe("concurrent-lookup-unentitled")
+					}
+				}
+			}
 			touched := c04KeyOps(w)[before:]
 			r.Evals++
 			desc := fmt.Sprintf("req#%d %s key=%s peer=%s tls=%s xff=%v scc=%s bearer=%s bad=%s policy=%v/%s -> %d", i, q.Endpoint, q.Key, q.Peer, q.TLS, q.XFF, q.SCC, q.Bearer, q.BadParam, policyMode, opaFault, resp.Code)
@@ -746,7 +796,8 @@ func c04Run(r *core.Run) {
 func c04KeyOps(w *world.World) []string {
 	var out []string
 	for _, op := range w.TokOpsSnapshot() {
-		if op.Op == "getkey" || op.Op == "sign" {
+		if (op.Op == "getkey" || op.Op == "sign") && !strings.HasPrefix(op.Task, "shadow") {
+			// (the concurrent look-ups of "shadow" tasks are judged by their answers)
 			out = append(out, op.Op+":"+op.Key)
 		}
 	}
